@@ -350,7 +350,7 @@ func checkC03(c *Ctx, r *Report) {
 			guard := false
 			for _, cf := range normFacts(condFacts(in.Block())) {
 				if gn == "GetHealthy" {
-					if bo, ok := cf.Cond.(*ssa.BinOp); ok && bo.Op == token.EQL && cf.True && statusConstName(c, bo.Y) == "healthy" && mentionsField(bo.X, pkgDomain, "Endpoint", "Status", 2) {
+					if bo, ok := cf.Cond.(*ssa.BinOp); ok && assertsEq(bo, cf.True) && statusConstName(c, bo.Y) == "healthy" && mentionsField(bo.X, pkgDomain, "Endpoint", "Status", 2) {
 						guard = true
 					}
 				} else {
